@@ -139,6 +139,7 @@ pub fn observe_rank5(w: &[u32]) -> Map<String, Value> {
             m.insert("witness".into(), hilo_arr(&r.witness));
             m.insert("name".into(), json!(format!("{:?}", hr.name)));
             m.insert("class".into(), json!(format!("{:?}", hr.class)));
+            m.insert("rank_consistent".into(), json!(hr.is_a_valid_hand_rank() && hr == HandRank::from(hr.value)));
         }
         Err(_) => {
             m.insert("value".into(), json!(-1));
@@ -165,6 +166,7 @@ pub fn observe_rankn(w: &[u32]) -> Map<String, Value> {
             m.insert("witness".into(), hilo_arr(&r.witness));
             m.insert("name".into(), json!(format!("{:?}", hr.name)));
             m.insert("class".into(), json!(format!("{:?}", hr.class)));
+            m.insert("rank_consistent".into(), json!(hr.is_a_valid_hand_rank() && hr == HandRank::from(hr.value)));
             // structural part of C03 that needs no oracle: five input words, strictly
             // descending, re-ranking to the reported value
             let wi = r.witness;
